@@ -997,6 +997,8 @@ def enumerate_hist(st, rng, n, part=0, parts=1):
         add("KEY_UPDATE_STORM", count=12)
         add("RESET_AFTER_DATA_ACKS")
         add("ACK_EVERYTHING_THEN_GARBAGE_ACKS")
+        for s_ in range(16):
+            add("ACK_INTERPLAY_RANDOM", seed=rng.randrange(1 << 30), steps=rng.choice([4, 10, 25, 60]))
     if st.role == "client" and st.name == "first_flight":
         for tl in (0, 16, 1100, 1180, 1300, 3000):
             add("RETRY_THEN_BAD_INITIAL", token=tl)
@@ -1103,6 +1105,47 @@ def mat_hist(st, d):
         out.append((peer.packet("1rtt", build_frame(["ack", 2, 60, 0, 0, 60, [], None])), None))
         out.append((peer.packet("1rtt", build_frame(["max_stream_data", vs, 1 << 40])), None))
         return out
+    if k == "ACK_INTERPLAY_RANDOM":
+        # a key-holding peer that numbers its packets out of order (skips ahead, later uses the skipped numbers,
+        # repeats numbers) and acknowledges what the victim has really sent so far (largest / everything / a slice),
+        # mixed with ack-eliciting frames: exercises the victim's ack queue, ack-of-ack pruning and duplicate floor
+        r = random.Random(d["seed"])
+        skipped = []
+
+        def step(s, r=r, skipped=skipped):
+            p = s.peer
+            nxt = p.next_pn["A"]
+            c = r.random()
+            if c < 0.2:
+                jump = r.choice([2, 5, 10, 40])
+                skipped.extend(range(nxt, nxt + jump))
+                pn = nxt + jump
+                p.next_pn["A"] = pn + 1
+            elif c < 0.5 and skipped:
+                pn = skipped.pop(r.randrange(len(skipped)))
+            elif c < 0.55 and nxt > 0:
+                pn = r.randrange(0, nxt)  # a number that may have been used already
+            else:
+                pn = nxt
+                p.next_pn["A"] = pn + 1
+            largest_sent = s.drv.conn._packet_number - 1  # what a real peer learns by reading the victim's packets
+            body = b""
+            if largest_sent >= 0 and r.random() < 0.75:
+                mode = r.choice(["all", "largest", "slice", "two-ranges"])
+                if mode == "all":
+                    body += build_frame(["ack", 2, largest_sent, r.choice([0, 100]), 0, largest_sent, [], None])
+                elif mode == "largest":
+                    body += build_frame(["ack", 2, largest_sent, 0, 0, 0, [], None])
+                elif mode == "slice":
+                    hi = r.randrange(0, largest_sent + 1)
+                    body += build_frame(["ack", 2, hi, 0, 0, r.randrange(0, hi + 1), [], None])
+                elif largest_sent >= 4:
+                    body += build_frame(["ack", 2, largest_sent, 0, 1, 0, [[0, r.randrange(0, largest_sent - 2)]], None])
+            if r.random() < 0.7 or not body:
+                body += r.choice([b"\x01", build_frame(["max_data", 1 << 21]), b"\x01\x01"])
+            return [(p.packet("1rtt", body, pn=pn, pn_len=4), None)]
+
+        return Script([step] * d["steps"])
     if k == "ACK_EVERYTHING_THEN_GARBAGE_ACKS":
         out.append((peer.packet("1rtt", build_frame(["ack", 2, 200, 0, 0, 200, [], None])), None))
         out.append((peer.packet("1rtt", build_frame(["ack", 2, VMAX, 0, 0, VMAX, [], None])), None))
